@@ -29,10 +29,33 @@ def owner_key(key):
     return "%s.%s" % (m.group(1), m.group(2)) if m else key
 
 
+# Homogeneous instance families: one rule applied, by the same code and against a table, to every member of an enumeration of the code base (every header field,
+# every heap slot, every opcode, every (kind, denomination) cell).  A breaking variant that confirms the instance for one member confirms the reading for all of
+# them — a wrong field in `from_block` is the same regression whichever field it hits — so the family is armed (and its alarms on behaviour-preserving code are
+# counted) as a whole.
+FAMILIES = [
+    (r"^(C01\.R2/cell)/[A-Za-z0-9]+/[A-Za-z0-9]+$", r"\1/*"),
+    (r"^(C04\.R4/slot)/[A-Z_0-9]+$", r"\1/*"),
+    (r"^(C06\.R3/field|C07\.R1/field|C07\.R3/clone|C08\.R1/field)/[a-z_0-9]+$", r"\1/*"),
+    (r"^(C10\.R2)/[A-Za-z0-9]+/(helper|op|ints-only|result=[01]|order)$", r"\1/*/\2"),
+    (r"^(C10\.R6)/[A-Za-z0-9]+/(arity|array|len)$", r"\1/*/\2"),
+    (r"^(C10\.R6)/[A-Za-z0-9]+/pos\d+$", r"\1/*/pos"),
+    (r"^(C11\.R1/(?:arm|rest))/[A-Za-z0-9]+$", r"\1/*"),
+    (r"^(C12\.T[23])/[A-Za-z0-9]+/([a-z-]+)$", r"\1/*/\2"),
+    (r"^(C16\.R2/insert)/[A-Za-z]+/[A-Za-z]+/", r"\1/*/*/"),
+    (r"^(C06\.R5/(?:const|uses))/[a-z_0-9]+$", r"\1/*"),
+]
+
+
 def arm_pattern(okey):
-    """the static part of an owner-normalised key: up to the first dynamic payload marker (':' '@' '|'), closure numbers generalised"""
+    """the static part of an owner-normalised key: up to the first dynamic payload marker (':' '@' '|'), closure numbers generalised, members of a
+    homogeneous family (FAMILIES) generalised to the family"""
     import re
     k = okey
+    for rx, rep in FAMILIES:
+        k2 = re.sub(rx, rep, k)
+        if k2 != k:
+            return k2
     if "/site/" in k and k.count("|") >= 3:
         # K8 may-panic sites `fn|kind|what|operands`: the instance is the kind of site in that function (an unwrap, a division, a call of X),
         # not the function as a whole — a variant that confirms `f|extern|withdraw|` says nothing about `f|unwrap|unwrap|`
